@@ -179,6 +179,9 @@ func main() {
 		},
 	}
 	if c.Replay != "" {
+		if positionsReplay(c) {
+			c.Finish()
+		}
 		if !chain.Replay(c, opts) {
 			c.Fatal("replay file holds no behaviour")
 		}
@@ -282,6 +285,7 @@ func main() {
 		total.Accepted += st.Accepted
 		total.Rejected += st.Rejected
 	}
+	positions(c)
 	for _, t := range tallies {
 		histories++
 		spentIDs += int64(len(t.spent))
